@@ -68,7 +68,8 @@ def _grs_loop(v):
         yield "same-rows-as-get_item_rows", psum_of(H_, i) == IR.psum(i)
 
 
-@contract(PI + "Pile.get_rows_sizes", property=("C09", "C01", "C19"), inline=PINL, deterministic=True, replayable=False)
+@contract(PI + "Pile.get_rows_sizes", property=("C09", "C01", "C19"), inline=PINL, deterministic=True, replayable=False,
+          cover_timeout_ms=60000)  # (its vacuity guards need a model of quantified facts: 15 s was not always enough on a busy machine)
 class pile_grs:
     qf_branching = True
     """(widths, heights, size arguments), one per child: the shared geometry of every Pile entry point."""
